@@ -33,11 +33,15 @@ def same_outcome(code, model):
     return ("nonlib" in model) == ("nonlib" in code)
 
 
+MODEL_MAX = 8192
+
+
 def run(ctx, res):
     rng = ctx.rng
     drv = Driver(Oracle()) if ctx.driver_ok else None
     res.rule = ("all byte strings of length 0-2 (65 793) x paddings 0-3, random byte strings up to 4 KB in all three "
-                "length classes, and arbitrary text for the lenient decoder; a case is non-trivial when its byte string "
+                "length classes, byte strings that are themselves url-safe text (every length to 120, encodings of encodings), "
+                "large values (48 KiB - 200 KB; thorough 1 MiB), and arbitrary text for the lenient decoder; a case is non-trivial when its byte string "
                 "/ text is distinct; compared: real encode/decode vs model driver, and the C14 predicate on the real code")
     short = [b""] + [bytes([a]) for a in range(256)] + [bytes([a, b]) for a in range(256) for b in range(256)]
     n_rand = 300 if ctx.quick() else 6000
@@ -45,7 +49,16 @@ def run(ctx, res):
     for i in range(n_rand):
         ln = rng.choice([3, 4, 5, 31, 32, 33, 64, 65, 255, 256, 1023, rng.randrange(0, 4096)])
         rand.append(rng.bytes_(ln))
-    inputs = short + rand
+    # byte strings that are themselves text: made only of the url-safe alphabet (every length up to 120, incl. the encoding
+    # of an encoding), identifiers, '=' and whitespace - an encoder must not care what the bytes look like
+    ALPHA = b"ABCDEFGHIJKLMNOPQRSTUVWXYZabcdefghijklmnopqrstuvwxyz0123456789-_"
+    texty = [bytes(rng.choice(ALPHA) for _ in range(ln)) for ln in range(0, 121)]
+    texty += [bytes_to_base64url(b).encode("ascii") for b in rand[:40]]
+    texty += [b"user-%021d" % i for i in range(5)] + [b"=" * k for k in range(1, 6)] + [b"AAAA" * 8, b"A" * 22, b"-" * 23, b"_" * 24,
+              b" \t\r\n" * 6, b"QUJD", b"QUJD" * 7, bytes(range(256))]
+    # large values (largeBlob payloads, long chains): sizes around 48 KiB / 64 KiB of text and beyond
+    big = [rng.bytes_(n) for n in ([49150, 49152, 49153, 65535, 65536, 65537, 3 * 65536 // 4 + 1, 200000] + ([] if ctx.quick() else [1 << 20]))]
+    inputs = short + rand + texty + big
     res.exhaustive = True
     seen_enc = {}
     # --- encode: code vs model, alphabet, injectivity
@@ -55,8 +68,11 @@ def run(ctx, res):
         code_enc = [bytes_to_base64url(b) for b in chunk]
         model_enc = None
         if drv:
-            r, _ = drv.call({"op": "batch", "cases": [{"op": "b64_encode", "b": b.hex()} for b in chunk]})
-            model_enc = [x.get("record") for x in r["results"]]
+            # the model (list-based) is asked up to 8 KiB; larger values are judged by the property predicate on the real code
+            small = [b for b in chunk if len(b) <= MODEL_MAX]
+            r, _ = drv.call({"op": "batch", "cases": [{"op": "b64_encode", "b": b.hex()} for b in small]})
+            it = iter(x.get("record") for x in r["results"])
+            model_enc = [next(it) if len(b) <= MODEL_MAX else None for b in chunk]
         for j, b in enumerate(chunk):
             e = code_enc[j]
             res.evaluations += 1
@@ -69,7 +85,7 @@ def run(ctx, res):
                 res.violations.append({"why": "two byte strings share an encoding", "input": b.hex(),
                                        "other": seen_enc[e].hex(), "encoded": e, "match": {"op": "b64_encode"}})
             seen_enc[e] = b
-            if model_enc is not None and model_enc[j] != e:
+            if model_enc is not None and model_enc[j] is not None and model_enc[j] != e:
                 res.disagreements.append({"why": "encode differs", "input": b.hex(), "code": e, "model": model_enc[j]})
     # --- decode with every padding: code vs model, round trip
     dec_cases = []
@@ -82,15 +98,17 @@ def run(ctx, res):
         chunk = dec_cases[i:i + CH]
         model = None
         if drv:
-            r, _ = drv.call({"op": "batch", "cases": [{"op": "b64_decode", "s": s} for _, s in chunk]})
-            model = r["results"]
+            small = [s for b, s in chunk if len(b) <= MODEL_MAX]
+            r, _ = drv.call({"op": "batch", "cases": [{"op": "b64_decode", "s": s} for s in small]})
+            it = iter(r["results"])
+            model = [next(it) if len(b) <= MODEL_MAX else None for b, s in chunk]
         for j, (b, s) in enumerate(chunk):
             c = code_decode(s)
             res.evaluations += 1
             if c["k"] != "accept" or c["record"] != b.hex():
                 res.violations.append({"why": "decode(encode(b) + padding) != b", "input": b.hex(), "text": s, "code": c,
                                        "match": {"op": "b64_decode"}})
-            if model is not None and not same_outcome(c, model[j]):
+            if model is not None and model[j] is not None and not same_outcome(c, model[j]):
                 res.disagreements.append({"why": "decode differs", "text": s, "code": c, "model": model[j]})
     # --- lenient decoder on arbitrary text (equality of outcomes; no property predicate applies)
     n_text = 3000 if ctx.quick() else 60000
@@ -115,7 +133,7 @@ def run(ctx, res):
             res.evaluations += 1
             res.nontrivial.add(("t", s))
             res.count("lenient:" + (c["k"] if c["k"] == "accept" else c["nonlib"]))
-            if model is not None and not same_outcome(c, model[j]):
+            if model is not None and model[j] is not None and not same_outcome(c, model[j]):
                 res.disagreements.append({"why": "lenient decode differs", "text": s, "code": c, "model": model[j]})
     res.samples = [{"bytes": "fbff", "encoded": bytes_to_base64url(b"\xfb\xff"), "decoded_with_padding": code_decode("-_8==")},
                    {"text": "A", "code": code_decode("A")}, {"text": "A=A=A", "code": code_decode("A=A=A")}]
